@@ -213,7 +213,7 @@ pub fn run(ctx: &Ctx) -> (Stats, Report) {
     let s = pt_run(
         "C03/grammar",
         seed,
-        (if ctx.thorough { 1_600_000 } else { 160_000 }) / THREADS as u32,
+        (if ctx.thorough { 8_000_000 } else { 320_000 }) / THREADS as u32,
         THREADS,
         || {
             (
@@ -328,7 +328,7 @@ pub fn run(ctx: &Ctx) -> (Stats, Report) {
 
     // 3: the operation table with extreme scalars and all pool values
     let ops = all_ops();
-    let budget: u64 = if ctx.thorough { 20_000_000 } else { 2_000_000 };
+    let budget: u64 = if ctx.thorough { 80_000_000 } else { 6_000_000 };
     for (oi, op) in ops.iter().enumerate() {
         let mut pools_: Vec<Vec<Arg>> = op.args.iter().enumerate().map(|(k, ak)| arg_pool(*ak, seed, if k == 0 { PoolSize::Full } else { PoolSize::Small })).collect();
         let mut total: u64 = pools_.iter().map(|p| p.len() as u64).product();
@@ -388,7 +388,7 @@ pub fn run(ctx: &Ctx) -> (Stats, Report) {
         let s = pt_run(
             &format!("C03/{}", op.name),
             seed,
-            (if ctx.thorough { 200_000 } else { 20_000 }) / THREADS as u32 + 1,
+            (if ctx.thorough { 1_000_000 } else { 40_000 }) / THREADS as u32 + 1,
             THREADS,
             || (strat_for(a0), match a1 { Some(k) => strat_for(k), None => Just(0i128).boxed() }),
             |(x, y): &(i128, i128), st: &mut Stats| {
